@@ -154,6 +154,10 @@ func (c *CBC) Decrypt(header recordlayer.Header, in []byte) ([]byte, error) {
 	}
 
 	dataEnd := len(body) - macSize - paddingLen
+	if dataEnd < 0 {
+		// Well-formed padding that leaves no room for the MAC.
+		return nil, dtlserrors.ErrInvalidMAC
+	}
 
 	expectedMAC := body[dataEnd : dataEnd+macSize]
 	var err error
